@@ -27,8 +27,8 @@ CONSTANTS Nodes,        \* set of node names
           Sched,        \* "rtc" | "preempt"
           Horizon       \* clock bound (state constraint)
 
-VARIABLES node, pc, wire, now, sent, alive, lost, advn, dm, bm, monbad, dead, spin, ret, tainted, nabort
-vars == <<node, pc, wire, now, sent, alive, lost, advn, dm, bm, monbad, dead, spin, ret, tainted, nabort>>
+VARIABLES node, pc, wire, now, sent, alive, lost, advn, dm, bm, monbad, busbad, dead, spin, ret, tainted, nabort
+vars == <<node, pc, wire, now, sent, alive, lost, advn, dm, bm, monbad, busbad, dead, spin, ret, tainted, nabort>>
 
 Init ==
     /\ node = [n \in Nodes |-> [InitNode EXCEPT !.su = IdleSleep + WakeLat]]
@@ -39,7 +39,7 @@ Init ==
     /\ alive = Nodes
     /\ lost = 0 /\ advn = 0
     /\ dm = DmInit22 /\ bm = Bm22Init
-    /\ monbad = {} /\ dead = {} /\ spin = {}
+    /\ monbad = {} /\ busbad = {} /\ dead = {} /\ spin = {}
     /\ ret = <<>>
     /\ tainted = {} /\ nabort = 0
 
@@ -59,22 +59,24 @@ EmitAll(acc, n, outs, i, drops) ==
                         ELSE [m \in Nodes |-> IF m # n /\ m \in alive /\ e.ext
                                               THEN Append(acc.wire[m], [id |-> o.id, data |-> o.data, at |-> now + NodeCfg[m].lat])
                                               ELSE acc.wire[m]]
-              IN EmitAll([acc EXCEPT !.wire = w2, !.bm = b2.bm, !.bad = @ \cup b2.bad], n, outs, i + 1, drops)
+              IN EmitAll([acc EXCEPT !.wire = w2, !.bm = b2.bm, !.bbad = @ \cup b2.bad], n, outs, i + 1, drops)
          ELSE LET d2 == DmDeliver(acc.dm, NodeCfg, n, o)
               IN EmitAll([acc EXCEPT !.dm = d2.dm, !.bad = @ \cup d2.bad], n, outs, i + 1, drops)
 
 TxIdx(outs) == {i \in 1..Len(outs) : outs[i].k = "tx"}
-EmitT(n, outs, w0, dm0, taint0) ==
+EmitB(n, outs, w0, dm0, taint0, bm0) ==
     \E drops \in SUBSET TxIdx(outs) :
        /\ Cardinality(drops) + lost <= MaxLoss
-       /\ LET acc == EmitAll([wire |-> w0, dm |-> dm0, bm |-> bm, bad |-> {}], n, outs, 1, drops) IN
+       /\ LET acc == EmitAll([wire |-> w0, dm |-> dm0, bm |-> bm0, bad |-> {}, bbad |-> {}], n, outs, 1, drops) IN
           /\ wire' = acc.wire /\ dm' = acc.dm /\ bm' = acc.bm
           /\ monbad' = monbad \cup acc.bad
+          /\ busbad' = busbad \cup acc.bbad
           /\ lost' = lost + Cardinality(drops)
           \* ghosts: messages that a fault may have hit; number of connection aborts put on the bus
           /\ tainted' = IF drops = {} THEN taint0 ELSE taint0 \cup (1..Len(dm0.acc))
           /\ nabort' = nabort + Cardinality({i \in TxIdx(outs) : IdPf(outs[i].id) = PF_FDCM /\ Len(outs[i].data) >= 1 /\ outs[i].data[1] % 16 = FC_ABORT})
 
+EmitT(n, outs, w0, dm0, taint0) == EmitB(n, outs, w0, dm0, taint0, bm)
 Emit(n, outs, w0, dm0) == EmitT(n, outs, w0, dm0, tainted)
 
 Calm == Running = {} /\ Due0 = {}
@@ -113,7 +115,9 @@ Hostile(f) ==
     /\ LET r == Notify(node[f.to], NodeCfg[f.to], f.id, f.data, now)
        IN /\ ~r.unmodeled
           /\ node' = [node EXCEPT ![f.to] = r.ns]
-          /\ Emit(f.to, r.out, wire, dm)
+          \* the hostile frame is a frame on the bus too (sent by somebody else than the stacks under test)
+          /\ EmitB(f.to, r.out, wire, dm, tainted,
+                   Bm22Step(bm, dm.acc, NodeCfg, f.to, [ev |-> "ptx", id |-> f.id, data |-> f.data, t |-> now, fd |-> FALSE, ext |-> TRUE]).bm)
     /\ advn' = advn + 1
     /\ UNCHANGED <<pc, now, sent, alive, dead, spin, ret>>
 
@@ -127,7 +131,7 @@ JobWake(n) ==
        \/ /\ node[n].tok = 0 /\ node[n].su # None /\ node[n].su <= now
           /\ node' = [node EXCEPT ![n].su = None]
     /\ pc' = [pc EXCEPT ![n] = PassBegin(node[n], now)]
-    /\ UNCHANGED <<wire, now, sent, alive, lost, advn, dm, bm, monbad, dead, spin, ret, tainted, nabort>>
+    /\ UNCHANGED <<wire, now, sent, alive, lost, advn, dm, bm, monbad, busbad, dead, spin, ret, tainted, nabort>>
 
 (* one granule of the running job pass of n *)
 JobStep(n) ==
@@ -138,12 +142,12 @@ JobStep(n) ==
             /\ node' = [node EXCEPT ![n] = pe.ns]
             /\ pc' = [pc EXCEPT ![n] = IF pe.pc.ph = "again" THEN PassBegin(pe.ns, now) ELSE pe.pc]
             /\ spin' = IF pe.spin THEN spin \cup {n} ELSE spin
-            /\ UNCHANGED <<wire, dm, bm, monbad, lost, dead, tainted, nabort>>
+            /\ UNCHANGED <<wire, dm, bm, monbad, busbad, lost, dead, tainted, nabort>>
        ELSE LET r == Granule(node[n], NodeCfg[n], pc[n], now) IN
             IF r.dead
             THEN /\ dead' = dead \cup {n}
                  /\ pc' = [pc EXCEPT ![n] = PcIdle]
-                 /\ UNCHANGED <<node, wire, dm, bm, monbad, lost, spin, tainted, nabort>>
+                 /\ UNCHANGED <<node, wire, dm, bm, monbad, busbad, lost, spin, tainted, nabort>>
             ELSE /\ node' = [node EXCEPT ![n] = r.ns]
                  /\ pc' = [pc EXCEPT ![n] = r.pc]
                  /\ Emit(n, r.out, wire, dm)
@@ -156,7 +160,7 @@ Vanish(n) ==
     /\ alive' = alive \ {n}
     /\ wire' = [wire EXCEPT ![n] = <<>>]
     /\ tainted' = tainted \cup (1..Len(dm.acc))
-    /\ UNCHANGED <<node, pc, now, sent, lost, advn, dm, bm, monbad, dead, spin, ret, nabort>>
+    /\ UNCHANGED <<node, pc, now, sent, lost, advn, dm, bm, monbad, busbad, dead, spin, ret, nabort>>
 
 (* time passes to the next instant at which something is due *)
 Cands == {wire[n][1].at : n \in {m \in alive : wire[m] # <<>>}}
@@ -168,7 +172,7 @@ Tick ==
     /\ Cands # {}
     /\ now' = CHOOSE t \in Cands : \A u \in Cands : t <= u
     /\ now' > now
-    /\ UNCHANGED <<node, pc, wire, sent, alive, lost, advn, dm, bm, monbad, dead, spin, ret, tainted, nabort>>
+    /\ UNCHANGED <<node, pc, wire, sent, alive, lost, advn, dm, bm, monbad, busbad, dead, spin, ret, tainted, nabort>>
 
 Next ==
     \/ \E i \in 1..Len(Msgs) : Submit(i)
@@ -184,6 +188,9 @@ Bound == now <= Horizon
 (******************************* properties ********************************)
 \* monitors: delivery (C01/C06/C10) and bus (C03/C09) clauses never fire
 MonOk == monbad = {}
+\* bus clauses (C03/C09): judged on fault-free behaviours (a forged, stale or lost CTS/abort makes
+\* "cleared by the responder" ambiguous on any real bus; C09 does not quantify over faults)
+BusOk == (advn = 0 /\ lost = 0 /\ alive = Nodes) => busbad = {}
 \* C07/C08: the background thread never dies and never busy-spins
 JobAlive == dead = {}
 NoSpin == spin = {}
@@ -226,5 +233,5 @@ InboundNeverTouchesPool == [][\A n \in Nodes : (pc'[n] = pc[n] /\ sent' = sent) 
 EventuallySettled == <>[](Settled \/ dead # {} \/ spin # {})
 
 \* hide history variables from the state fingerprint where they do not influence behaviour
-View == <<node, pc, wire, now, sent, alive, lost, advn, dm, bm, monbad, dead, spin, tainted>>
+View == <<node, pc, wire, now, sent, alive, lost, advn, dm, bm, monbad, busbad, dead, spin, tainted>>
 =============================================================================
